@@ -57,8 +57,8 @@ func (vc *VC) calleeName(c *ssa.CallCommon) (string, *ssa.Function) {
 		}
 		if fa, ok := v.X.(*ssa.FieldAddr); ok {
 			st := deref(fa.X.Type())
-			if s, ok := structOf(st); ok {
-				return "$dyn:" + shortType(st) + "." + s.Field(fa.Field).Name(), nil
+			if _, ok := structOf(st); ok {
+				return "$dyn:" + shortType(st) + "." + recFieldName(st, fa.Field), nil
 			}
 		}
 	case *ssa.Call:
@@ -239,8 +239,13 @@ func (ci *callInfo) bindArgs(env *specEnv) {
 			names = append(names, ci.sig.Params().At(i).Name())
 		}
 	}
+	perm := argPerm(ci.fn)
 	for i, a := range ci.args {
-		env.vars[fmt.Sprintf("arg%d", i)] = a
+		if j, ok := perm[i]; ok && j < len(ci.args) {
+			env.vars[fmt.Sprintf("arg%d", i)] = ci.args[j]
+		} else {
+			env.vars[fmt.Sprintf("arg%d", i)] = a
+		}
 		if i < len(names) && names[i] != "" && names[i] != "_" {
 			env.vars[names[i]] = a
 		}
@@ -672,7 +677,11 @@ func (vc *VC) applyCall(ci *callInfo) []string {
 	}
 	pre := vc.st
 	argMap := map[string]sval{}
+	perm := argPerm(ci.fn)
 	for i, a := range ci.args {
+		if j, ok := perm[i]; ok && j < len(ci.args) {
+			a = ci.args[j]
+		}
 		argMap[fmt.Sprintf("arg%d", i)] = a
 	}
 	if len(ci.args) > 0 {
@@ -931,6 +940,9 @@ func (vc *VC) builtin(ins *ssa.Call, b *ssa.Builtin) {
 	args := ins.Call.Args
 	switch b.Name() {
 	case "len":
+		if _, isMap := args[0].Type().Underlying().(*types.Map); isMap {
+			vc.guardedUse(args[0], ins.Pos(), "map-len")
+		}
 		x := vc.val(args[0])
 		switch t := args[0].Type().Underlying().(type) {
 		case *types.Slice:
@@ -970,6 +982,7 @@ func (vc *VC) builtin(ins *ssa.Call, b *ssa.Builtin) {
 		n := vc.havocVal(ins)
 		vc.assume(fmt.Sprintf("(>= %s 0)", n))
 	case "delete":
+		vc.guardedUse(args[0], ins.Pos(), "map-delete")
 		if m, ok := args[0].Type().Underlying().(*types.Map); ok {
 			d, _ := vc.mapKeys(m)
 			x, k := vc.val(args[0]), vc.val(args[1])
@@ -994,6 +1007,7 @@ func (vc *VC) builtin(ins *ssa.Call, b *ssa.Builtin) {
 	case "close":
 		vc.unmodelledConc("close", ins.Pos())
 	case "clear":
+		vc.guardedUse(args[0], ins.Pos(), "map-clear")
 		vc.havocAll(false)
 	default:
 		vc.abstracted("builtin " + b.Name())
